@@ -3,6 +3,9 @@ package vanguard
 import (
 	"bytes"
 	"net/http"
+	"net/url"
+
+	"google.golang.org/genproto/googleapis/api/annotations"
 )
 
 type probeResult struct {
@@ -118,4 +121,39 @@ func hC15History() {
 	// sanity: the fresh probe itself succeeds (otherwise the comparison says little)
 	out := refParseClientResponse(cfg, fresh.sink, true)
 	verifAssert(out.valid && out.code == 0, "C15: probe RPC succeeds on a fresh transcoder")
+}
+
+// hC15RestVars: a REST backend route with path variables: the request built for one RPC does not depend on
+// the values of an earlier RPC on the same transcoder (route templates are shared state).
+func hC15RestVars() {
+	tpl := []string{"/v1/{name}/items/{id=**}", "/v3/{name}/x"}[verifChoose("template", 2)]
+	rules := []*annotations.HttpRule{{Selector: pipeSvc + "." + pipeMethod, Pattern: &annotations.HttpRule_Get{Get: tpl}}}
+	run := func(f *restFixture, name, id string) (string, string, int) {
+		f.backend.rec = backendRecord{}
+		f.backend.script = &respScript{msgs: []wireMsg{{}}}
+		f.sink = newFakeSink()
+		msg := &fakeMsg{}
+		msg.fvals[0], msg.fset[0] = name, true
+		msg.fvals[1], msg.fset[1] = id, true
+		req := &http.Request{Method: "POST", URL: &url.URL{Path: pipePath}, Proto: "HTTP/2", ProtoMajor: 2, Header: http.Header{"Content-Type": {"application/grpc+proto"}},
+			Body: &fakeBody{data: appendFrame(nil, 0, toyAppendFields(false, nil, msg))}, ContentLength: -1}
+		f.tr.ServeHTTP(f.sink, req)
+		return f.backend.rec.path, f.backend.rec.rawQuery, f.backend.rec.calls
+	}
+	name := string(nondetBytes("name", 1))
+	id := string(nondetBytes("id", 1))
+	verifAssume(refUnreserved(name[0]) && refUnreserved(id[0]))
+	fresh := newRestFixture(ProtocolREST, rules)
+	used := newRestFixture(ProtocolREST, rules)
+	if fresh == nil || used == nil {
+		return
+	}
+	wantPath, wantQuery, wantCalls := run(fresh, name, id)
+	run(used, "OLD", "PREVIOUS")
+	gotPath, gotQuery, gotCalls := run(used, name, id)
+	verifObsStr("fresh-path", wantPath)
+	verifObsStr("used-path", gotPath)
+	verifReach("rest-probe-after-history")
+	verifAssert(wantCalls == 1, "C15: probe reaches the REST backend on a fresh transcoder")
+	verifAssert(gotCalls == wantCalls && gotPath == wantPath && gotQuery == wantQuery, "C15: REST request line independent of earlier traffic")
 }
